@@ -573,12 +573,12 @@ func (vp *valPool) index() *valPool {
 type valShape int
 
 const (
-	valEmpty  valShape = iota // zero-field value (secondary-index style)
-	valSmall                  // one int64
-	valMedium                 // int64 + ~80..200 byte string
-	valWide                   // int64 + 400..1200 byte payload: few entries per leaf => deep trees
-	valGiant                  // a few values of 5..20 KB force size-based chunk boundaries
-	valNullable               // (int64?, string?, int64?) with NULL suffixes (tuple canonicalisation)
+	valEmpty    valShape = iota // zero-field value (secondary-index style)
+	valSmall                    // one int64
+	valMedium                   // int64 + ~80..200 byte string
+	valWide                     // int64 + 400..1200 byte payload: few entries per leaf => deep trees
+	valGiant                    // a few values of 5..20 KB force size-based chunk boundaries
+	valNullable                 // (int64?, string?, int64?) with NULL suffixes (tuple canonicalisation)
 )
 
 func genValPool(r *rand.Rand, ns tree.NodeStore, shape valShape, n int) *valPool {
@@ -801,9 +801,9 @@ type shapeInfo struct {
 	height     int
 	leaves     int
 	nodes      int
-	boundaries []int         // pool ranks of the LAST key of every leaf (chunk boundaries)
-	upper      []int         // pool ranks of the last key of every internal non-root node (boundaries of whole subtrees)
-	firsts     []int         // pool ranks of the FIRST key of every leaf
+	boundaries []int // pool ranks of the LAST key of every leaf (chunk boundaries)
+	upper      []int // pool ranks of the last key of every internal non-root node (boundaries of whole subtrees)
+	firsts     []int // pool ranks of the FIRST key of every leaf
 	leafHashes map[hash.Hash]struct{}
 	allHashes  map[hash.Hash]struct{}
 }
